@@ -1,6 +1,11 @@
 package harness
 
-import "encoding/json"
+import (
+	"encoding/json"
+	"sort"
+)
 
 func jsonMarshal(v interface{}) ([]byte, error)   { return json.Marshal(v) }
 func jsonUnmarshal(b []byte, v interface{}) error { return json.Unmarshal(b, v) }
+
+func sortStrings(a []string) { sort.Strings(a) }
